@@ -358,7 +358,7 @@ theorem inv_post_nomore {s : State} (h : Inv s) (hns : inSync s = false) (hf : s
   inv_close
 
 /-- `next_async` on a generator that ended with an exception: `_caller` is stored, then `no_more_values` is thrown -/
-theorem inv_post_stuck {s : State} (h : Inv s) (hns : inSync s = false) (hf : s.bst = .final) (hd : s.done = false) (hc : s.caller = .none)
+theorem inv_post_stuck {s : State} (h : Inv s) (hns : inSync s = false) (hf : s.bst = .final) (hd : s.done = false) (_hc : s.caller = .none)
     (e : List Ev) :
     Inv { s with caller := .awt, stuck := true, seen := s.seen ++ [.nomore], post := s.post ++ [.nomore], evs := e } := by
   inv_cases h
